@@ -189,6 +189,10 @@ func SlBase(s Term) Term { return app(SInt, "sbase", s) }
 func SlOff(s Term) Term  { return app(SInt, "soff", s) }
 func SlLen(s Term) Term  { return app(SInt, "slen", s) }
 func SlCap(s Term) Term  { return app(SInt, "scap", s) }
+
+// SlIdx is the position of element i of slice s in its backing row (soff+i, kept
+// behind an uninterpreted symbol so that quantified facts over elements e-match).
+func SlIdx(s, i Term) Term { return app(SInt, "sidx", s, i) }
 func MkSlice(base, off, ln, cp Term) Term {
 	return app(SSlice, "mkSl", base, off, ln, cp)
 }
@@ -209,6 +213,8 @@ type SolveResult struct {
 const preludeCommon = `(declare-sort Str 0)
 (declare-datatypes ((Iface 0)) (((mkI (ity Int) (ival Int)))))
 (declare-datatypes ((Slice 0)) (((mkSl (sbase Int) (soff Int) (slen Int) (scap Int)))))
+(declare-fun sidx (Slice Int) Int)
+(assert (forall ((s Slice) (i Int)) (! (= (sidx s i) (+ (soff s) i)) :pattern ((sidx s i)))))
 (declare-fun strlen (Str) Int)
 (assert (forall ((s Str)) (! (>= (strlen s) 0) :pattern ((strlen s)))))
 `
